@@ -755,9 +755,9 @@ func Execute(cfg Config, prog []Op, seed int64) (run Run, err error) {
 		}
 		op.Err = cerr != nil
 		done = append(done, *op)
-		if cerr != nil && (op.Op == "CloseStream" || op.Op == "WriteCompressed") {
-			// the model marks the writer as failed after these; the program ends
-			// (other errors leave the writer usable)
+		if cerr != nil && op.Op == "CloseStream" {
+			// the model marks the writer as failed after this; the program ends
+			// (other errors leave the writer usable: a refused call changes nothing)
 			run.Ops = done
 			return run, nil
 		}
